@@ -330,6 +330,9 @@ def check_har(path, expected, preserve_bytes, sanitize=False):
             resp = entry["response"]
             if resp["status"] != ex["response"]["status"]:
                 viols.append(("C16/har-status-differs", f"{resp['status']} vs {ex['response']['status']}"))
+            # sizes are the numbers of bytes that were received / sent (0 for an empty body, not "unknown")
+            if resp.get("bodySize") != len(ex["response"]["content"] or b""):
+                viols.append(("C16/har-response-body-size-differs", f"bodySize {resp.get('bodySize')} for a body of {len(ex['response']['content'] or b'')} bytes"))
             if not sanitize:
                 got_pairs = sorted((h["name"].lower(), h["value"]) for h in resp.get("headers") or [])
                 want_pairs = sorted((k.lower(), v) for k, values in ex["response"]["headers"].items() for v in values)
